@@ -536,6 +536,21 @@ func cmdCheck(args []string) int {
 	if len(samples) == 0 {
 		ev.Coverage["samples"] = []any{"(no obligation discharged on this run)"}
 	}
+	byKind := map[string]int{}
+	var names []string
+	for _, it := range items {
+		if it.Cover {
+			continue
+		}
+		k := it.Kind
+		if i := strings.Index(k, "."); i > 0 {
+			k = k[:i]
+		}
+		byKind[k]++
+		names = append(names, it.Name+" ["+it.Status+"]")
+	}
+	ev.Coverage["obligations_by_kind"] = byKind
+	ev.Coverage["obligation_list"] = names
 	if *tier == "thorough" && exit == 0 && os.Getenv("GOVC_NO_MUTANTS") == "" {
 		// thorough tier: the must-fail corpus of this property is run as well (each mutant on a scratch copy of the
 		// working tree under the system temp directory, removed afterwards): a check that can no longer tell these
